@@ -18,7 +18,8 @@ LEVEL = "exploration"
 TIMEOUT = 900
 RULE = ("(a) every stock dynamic case with its own events disabled; (b) composed systems on kundur / ieee14 / ieee39 / wscc9 / generated "
         "networks: every static generator gets GENCLS or GENROU (+ exciter, governor, stabiliser harvested with their parameter rows from "
-        "the stock cases), some generators are shared by two machines with split factors summing to one, some devices offline, "
+        "the stock cases), some generators are shared by two machines with split factors summing to one, some devices offline (loads, "
+        "PVD1/ESD1, current-source and voltage-source converter models with u = 0 on in-service static devices), "
         "measurement devices and ZIP/FLoad loads added; (c) the same made inconsistent (split factors not summing to one, perturbed "
         "power-flow solution, NaN parameter). Non-trivial: >= 4 dynamic devices initialised; distinct = case | composition seed.")
 ASSUMPTIONS = ["in scope for the 'succeeds' clause: power flow converged, IEEEG1 fractions as its documentation requires, every island has exactly one slack, no in-service machine on an out-of-service static generator, no limiter flag active at initialisation for an online device, no "
@@ -455,6 +456,43 @@ def add_offline_devices(rng, ss):
     return desc
 
 
+def add_offline_converters(rng, ss):
+    """Out-of-service voltage-source converter devices (REGCV1/2, REGF1/2/3: models that do carry the status flag in their
+    equations) next to the machines of an in-service static generator: inert, like every other offline device."""
+    desc = []
+    kinds = ["REGCV1", "REGCV2", "REGF1", "REGF2", "REGF3", "REGCV1", "REGCV2", "REGF1", "REGF2"]
+    for _ in range(int(rng.integers(1, 3))):
+        k = kinds[int(rng.integers(0, len(kinds)))]
+        G = ss.PV if ss.PV.n and rng.random() < 0.8 else ss.Slack
+        j = int(rng.integers(0, G.n))
+        row = dict(u=0, bus=G.bus.v[j], gen=G.idx.v[j], Sn=100.0)
+        if rng.random() < 0.5:
+            # non-default droops / split factors: none of them may matter for a device that is off
+            g = float(np.round(rng.uniform(0.1, 1.0), 2))
+            row.update(gammap=g, gammaq=g)
+            row.update(dict(kw=5.0, kv=0.01, D=1.0) if k.startswith("REGCV") else dict(wdrp=0.03, Qdrp=0.05))
+        try:
+            ss.add(k, row)
+            desc.append("%s(u=0)@%s" % (k, row["gen"]))
+        except Exception:
+            continue
+    return desc
+
+
+def offline_regf3_only(ss, tol):
+    """Mechanism predicate of the known finding ``offline_regf3_zero_voltage_reference``: an out-of-service REGF3 device
+    exists, its rows hold NaN, and every row of ANDES' own residual that is NaN or above the tolerance belongs to REGF3."""
+    if not ss.REGF3.n or not np.any(np.array(ss.REGF3.u.v) == 0):
+        return False
+    names = list(ss.dae.x_name) + list(ss.dae.y_name)
+    r = np.concatenate([ss.dae.f, ss.dae.g])
+    with np.errstate(all="ignore"):
+        bad = np.where(np.isnan(r) | (np.abs(r) > tol))[0]
+    if not len(bad) or not np.any(np.isnan(r[bad])):
+        return False
+    return all(" REGF3 " in names[j] for j in bad)
+
+
 def status_blind_offline(ss):
     """Models with an out-of-service device whose differential / algebraic equation strings never mention the status ``u``."""
     import re
@@ -497,6 +535,12 @@ def run_composed(spec, res):
         off = add_offline_devices(rng2, ss)
         desc = off + desc
         res.count("offline_dynamic_devices_on_live_static_ones", len(off))
+    rng3 = rng_for(spec.get("seed", 0), PROPERTY, 8, spec["index"])
+    if rng3.random() < 0.4:
+        off = add_offline_converters(rng3, ss)
+        desc = off + desc
+        res.count("offline_dynamic_devices_on_live_static_ones", len(off))
+        res.count("offline_voltage_source_converters", len(off))
     if rng2.random() < 0.4:
         # documented load options: shares of constant power / current / impedance in the time-domain run (each triple sums to 1)
         wp = [(1.0, 0.0, 0.0), (0.0, 1.0, 0.0), (0.2, 0.5, 0.3), (0.5, 0.25, 0.25)][int(rng2.integers(0, 4))]
@@ -538,6 +582,9 @@ def run_composed(spec, res):
             # mechanism predicate: an out-of-service device of a model whose equations never refer to the status flag
             mech = "offline_device_equations_ignore_status"
             tag = "%s [out of service, equations without u: %s]" % (tag, blind)
+        elif offline_regf3_only(ss, float(ss.TDS.config.tol)):
+            # mechanism predicate: the only rows that fail are NaN rows of a model with an out-of-service REGF3 device
+            mech = "offline_regf3_zero_voltage_reference"
         if wn.startswith(("Vss IEEEST", "vsout IEEEST")) and ss.IEEEST.n:
             I = ss.IEEEST
             if any(I.T5.v[k] == 0 and int(I.MODE.v[k]) in (3, 5) and I.u.v[k] != 0 for k in range(I.n)):
